@@ -13,18 +13,18 @@ import (
 // leaves every judgement to the Lean side.
 
 type ctorAST struct {
-	Name       string
-	Params     []string
-	Variadic   bool
-	Callee     string
-	OpcConst   string
-	FormsSel   string
-	SfxType    string
-	SfxConsts  []string
-	Args       []string
+	Name        string
+	Params      []string
+	Variadic    bool
+	Callee      string
+	OpcConst    string
+	FormsSel    string
+	SfxType     string
+	SfxConsts   []string
+	Args        []string
 	ArgsIsSlice bool
-	Doc        []string // "Forms:" rows, blanks collapsed
-	ShapeErr   string   // non-empty when the body does not have the recognised shape
+	Doc         []string // "Forms:" rows, blanks collapsed
+	ShapeErr    string   // non-empty when the body does not have the recognised shape
 }
 
 type wrapAST struct {
